@@ -75,6 +75,11 @@ int aws_cli_getopt_long(
     int *longindex) {
     aws_cli_optarg = NULL;
 
+    if (aws_cli_optind <= 1) {
+        /* a run starts here (aws_cli_optind was set back to 1): nothing is pending from an earlier run */
+        aws_cli_on_arg = false;
+    }
+
     if (aws_cli_optind >= argc) {
         return -1;
     }
